@@ -142,3 +142,100 @@ pub proof fn lemma_route_extend(s0: Storage, inp: Coin, ops: Seq<SwapOperation>,
 }
 
 } // verus!
+verus! {
+// ---------------------------------------------------------------- quote == execution for routes (C12)
+/// simulated hop i against the UNCHANGED state s: amts[i+1] = return of compute_swap on s.pools[id_i]
+pub open spec fn sim_at(s: Storage, ops: Seq<SwapOperation>, amts: Seq<Uint128>, i: int) -> bool {
+    let c = compute_swap_fn(s.pools@[op_pool(ops[i])], Coin { denom: Str { v: Ghost(op_in(ops[i])) }, amount: amts[i] }, op_out(ops[i]));
+    s.pools@.dom().contains(op_pool(ops[i])) && c is Ok && amts[i + 1] == c->Ok_0.return_amount
+}
+pub open spec fn sim_seq(s: Storage, offer: Uint128, ops: Seq<SwapOperation>, k: nat, amts: Seq<Uint128>) -> bool {
+    k <= ops.len() && amts.len() == k + 1 && amts[0] == offer
+    && forall|i: int| 0 <= i < k ==> #[trigger] sim_at(s, ops, amts, i)
+}
+pub open spec fn pools_distinct(ops: Seq<SwapOperation>) -> bool {
+    forall|i: int, j: int| 0 <= i < j < ops.len() ==> op_pool(#[trigger] ops[i]) != op_pool(#[trigger] ops[j])
+}
+
+pub proof fn lemma_sim_extend(s: Storage, offer: Uint128, ops: Seq<SwapOperation>, k: nat, amts: Seq<Uint128>, next: Uint128)
+    requires k < ops.len(), sim_seq(s, offer, ops, k, amts), sim_at(s, ops, amts.push(next), k as int),
+    ensures sim_seq(s, offer, ops, k + 1, amts.push(next)),
+{
+    let a2 = amts.push(next);
+    assert forall|i: int| 0 <= i < k + 1 implies #[trigger] sim_at(s, ops, a2, i) by {
+        if i < k { assert(sim_at(s, ops, amts, i)); }
+    }
+}
+
+/// pool `id` is untouched by the first k hops when no earlier hop used it
+proof fn lemma_untouched(s0: Storage, inp: Coin, ops: Seq<SwapOperation>, max: Option<Decimal>, k: nat,
+    st: Seq<Storage>, outs: Seq<Coin>, ms: Seq<Seq<CosmosMsg>>, id: Seq<char>)
+    requires route_seq(s0, inp, ops, max, k, st, outs, ms), forall|i: int| 0 <= i < k ==> op_pool(#[trigger] ops[i]) != id,
+    ensures st[k as int].pools@.dom().contains(id) == s0.pools@.dom().contains(id),
+        s0.pools@.dom().contains(id) ==> st[k as int].pools@[id] == s0.pools@[id],
+    decreases k,
+{
+    if k > 0 {
+        let k1 = (k - 1) as nat;
+        let st1 = st.subrange(0, k as int);
+        let outs1 = outs.subrange(0, k as int);
+        let ms1 = ms.subrange(0, k as int);
+        assert forall|i: int| 0 <= i < k1 implies #[trigger] hop_at(st1, outs1, ms1, ops, max, i) by {
+            assert(hop_at(st, outs, ms, ops, max, i));
+        }
+        lemma_untouched(s0, inp, ops, max, k1, st1, outs1, ms1, id);
+        assert(hop_at(st, outs, ms, ops, max, k1 as int));
+        assert(op_pool(ops[k1 as int]) != id);
+    }
+}
+
+// @lemma route_quote_equals_execution [C12]
+/// SimulateSwapOperations == ExecuteSwapOperations on routes that visit each pool at most once (pools may share denoms)
+pub proof fn lemma_route_quote_equals_execution(s0: Storage, inp: Coin, ops: Seq<SwapOperation>, max: Option<Decimal>, k: nat,
+    st: Seq<Storage>, outs: Seq<Coin>, ms: Seq<Seq<CosmosMsg>>, amts: Seq<Uint128>)
+    requires
+        route_seq(s0, inp, ops, max, k, st, outs, ms),
+        sim_seq(s0, inp.amount, ops, k, amts),
+        pools_distinct(ops), ops_chain(ops), ops.len() > 0, inp.denom@ == op_in(ops[0]),
+    ensures
+        forall|i: int| 0 <= i <= k ==> (#[trigger] outs[i]).amount == amts[i],
+        forall|i: int| 0 <= i <= k ==> (#[trigger] outs[i]).denom@ == (if i == 0 { op_in(ops[0]) } else { op_out(ops[i - 1]) }),
+    decreases k,
+{
+    if k > 0 {
+        let k1 = (k - 1) as nat;
+        let st1 = st.subrange(0, k as int);
+        let outs1 = outs.subrange(0, k as int);
+        let ms1 = ms.subrange(0, k as int);
+        let amts1 = amts.subrange(0, k as int);
+        assert forall|i: int| 0 <= i < k1 implies #[trigger] hop_at(st1, outs1, ms1, ops, max, i) by {
+            assert(hop_at(st, outs, ms, ops, max, i));
+        }
+        assert forall|i: int| 0 <= i < k1 implies #[trigger] sim_at(s0, ops, amts1, i) by {
+            assert(sim_at(s0, ops, amts, i));
+        }
+        lemma_route_quote_equals_execution(s0, inp, ops, max, k1, st1, outs1, ms1, amts1);
+        assert forall|i: int| 0 <= i < k1 implies op_pool(#[trigger] ops[i]) != op_pool(ops[k1 as int]) by { }
+        lemma_untouched(s0, inp, ops, max, k1, st1, outs1, ms1, op_pool(ops[k1 as int]));
+        assert(hop_at(st, outs, ms, ops, max, k1 as int));
+        assert(sim_at(s0, ops, amts, k1 as int));
+        assert(outs1[k1 as int] == outs[k1 as int]);
+        assert(amts1[k1 as int] == amts[k1 as int]);
+        assert(st1[k1 as int] == st[k1 as int]);
+        // same pool record, same offered coin (denom by chaining, amount by induction) => same compute_swap result
+        let in_coin = outs[k1 as int];
+        let sim_coin = Coin { denom: Str { v: Ghost(op_in(ops[k1 as int])) }, amount: amts[k1 as int] };
+        assert(in_coin.denom@ == op_in(ops[k1 as int])) by {
+            if k1 > 0 { assert(op_out(ops[k1 - 1]) == op_in(ops[k1 as int])); }
+        }
+        assert(in_coin == sim_coin);
+        assert forall|i: int| 0 <= i <= k implies (#[trigger] outs[i]).amount == amts[i] by {
+            if i < k { assert(outs1[i] == outs[i]); assert(amts1[i] == amts[i]); }
+        }
+        assert forall|i: int| 0 <= i <= k implies (#[trigger] outs[i]).denom@ == (if i == 0 { op_in(ops[0]) } else { op_out(ops[i - 1]) }) by {
+            if i < k { assert(outs1[i] == outs[i]); }
+        }
+    }
+}
+
+} // verus!
